@@ -2,6 +2,7 @@
    produced by harness/h_integer.cpp and reports disagreements. -/
 import Driver.Common
 import Driver.IntegerTable
+-- @driver-mode integer Driver.integerLine
 namespace Driver
 open Givaro Givaro.Gen
 
